@@ -58,13 +58,13 @@ const WORDS: &[&str] = &[
     "=", "/", "x>y", "&amp", "&#", "&#x", "&#0;", "&#xD800;", "lorem ipsum dolor", "<>", "< a>",
 ];
 
-const ATTR_NAMES: &[&str] = &[
+pub const ATTR_NAMES: &[&str] = &[
     "id", "class", "href", "data-x", "a", "b", "foo", "CLASS", "Id", "xlink:href", "x", "title",
     "type", "encoding", "color", "face", "size", "charset", "content", "http-equiv", "é", "a/b",
     "=", "a\"b", "a'b", "a<b",
 ];
 
-const ATTR_VALUES: &[&str] = &[
+pub const ATTR_VALUES: &[&str] = &[
     "", "x", "a b", "foo", "bar", "foo bar", "1", "a&amp;b", "é", "x/y", "a>b", "a'b", "a\"b",
     "a=b", "text/html", "TEXT/HTML", "application/xhtml+xml", "utf-8", "  pad  ", "a\tb", "`", "<",
     "foo-bar", "en", "en-US", "x\0y",
